@@ -67,8 +67,12 @@ structure Cfg where
   imageName : String
 deriving Repr
 
+/-- go: path.Join(dir, base) for a plain directory name or the empty string (the default of --out_dir:
+    path.Join drops empty elements) and a plain base name. -/
+def joinDir (dir b : String) : String := if dir = "" then b else dir ++ "/" ++ b
+
 /-- go: endorse.releasePath (plain directory and base names: path.Join is concatenation). -/
-def relOut (c : Cfg) (b : String) : String := c.root ++ "/" ++ c.outDir ++ "/" ++ b
+def relOut (c : Cfg) (b : String) : String := c.root ++ "/" ++ joinDir c.outDir b
 def relSnap (c : Cfg) (b : String) : String := c.root ++ "/" ++ c.snapDir ++ "/" ++ b
 
 def manifestFile : String := "manifest.textproto"
